@@ -57,6 +57,20 @@ func (fv *FV) cellLookup(st *State) func(string) (Term, bool) {
 				}
 			}
 		}
+		if name == "roff" {
+			// byte offset of a string range iterator
+			for _, li := range fv.loops {
+				for c := range li.Cells {
+					if r, ok := c.(*ssa.Range); ok {
+						if cv, ok := st.cells[CellID{Frame: 0, A: r}]; ok && cv.T.Sort == SInt {
+							t := cv.T
+							t.T = types.Typ[types.Int]
+							return t, true
+						}
+					}
+				}
+			}
+		}
 		if strings.HasPrefix(name, "seen") {
 			// seenK: visited-set of the map range in loop K
 			for _, li := range fv.loops {
